@@ -31,6 +31,15 @@ MESHES = {
     "tri6k2": lambda: Z.template_2d("TRI6", 2),
 }
 MESH_CYCLE = {"tri2": "mixed2d", "mixed2d": "tri6k2", "quad8": "tri2", "mixed3d": "tri2", "tri6k2": "mixed2d"}
+# letter "integer type of the connectivity array": the same node numbers stored in the integer dtypes a mesh reader / a hand-made
+# array may carry; every node number is representable in the dtype (asserted), node * dof_n + component need not be.
+# grid13 = 13 x 13 cells, 196 nodes (<= 2^8), main group(s) + boundary segments; grid148 = 148 x 148 QUAD4, 22 201 nodes (<= 2^16).
+CONN_DTYPES = ["int64", "int32", "uint16", "uint8"]
+CONN_MESHES = {
+    "grid13_quad": (lambda: Z.template_2d("QUAD4", 13), ["int64", "int32", "uint16", "uint8"], [1, 2, 3]),
+    "grid13_mixed": (lambda: Z.template_2d(("TRI3", "QUAD4"), 13), ["int64", "int32", "uint16", "uint8"], [1, 2, 3]),
+    "grid148_quad": (None, ["int64", "int32", "uint16"], [3]),
+}
 
 
 def cases(tier, seed):
@@ -71,6 +80,11 @@ def cases(tier, seed):
             out.append({"kind": "isolated", "elemType": et, "nel": nel, "dof_n": dof_n})
     for sim in ("elastic", "thermal"):
         out.append({"kind": "scribble", "sim": sim, "mesh": "mixed2d"})
+    # (v) integer type of the connectivity arrays x dofs per node, on meshes whose dof numbers exceed the range of the small types
+    for mesh, (_, dtypes, dofs) in CONN_MESHES.items():
+        for dt in dtypes:
+            for dof_n in dofs:
+                out.append({"kind": "conndtype", "mesh": mesh, "conn": dt, "dof_n": dof_n})
     # direct assembly of user forms (FEM/_forms.py): Assemble == scatter-add of Integrate_e, non-symmetric forms included
     for et in ("TRI3", "QUAD4", "TRI6", "TETRA4"):
         for dof_n in (1, 2):
@@ -90,12 +104,14 @@ def describe(tier, seed):
         "rule": f"E2 unmerged: every sequence of {len(OPS)} operations of length {depth} from each start (mesh, dof_n, slot table, value kind); "
                 "after EVERY operation Assembly() of the real simulation is compared entry-wise with a dense loop over the dict returned by "
                 "Construct_local_matrix_system; plus real simulations (first and repeated assembly), node renumberings (all 24 permutations of the "
-                "4-node mesh, 3 representatives elsewhere) and direct form assembly. non-trivial = at least two assemblies with a different cache key; "
+                "4-node mesh, 3 representatives elsewhere), direct form assembly, and the integer type of the connectivity arrays "
+                f"{CONN_DTYPES} x dofs per node on grids of 196 nodes (dof_n 1-3) and 22 201 nodes (dof_n 3; no uint8). non-trivial = at least two assemblies with a different cache key; "
                 "distinct = fingerprint of the sequence of assembled systems",
         "exhaustive": True,
         "bound": ("depth 3 from 4 (mesh,dof_n) x 3 slot tables x 2 value kinds" if tier == "quick" else
                   "depth 4 from 4 (mesh,dof_n) x 5 slot tables x 2 value kinds, and depth 3 from 12 (mesh,dof_n) x 5 slot tables x 4 value kinds"),
-        "alphabet": {"ops": len(OPS), "slot_tables": SLOT_TABLES, "value_kinds": len(KINDS), "meshes": len(MESHES)},
+        "alphabet": {"ops": len(OPS), "slot_tables": SLOT_TABLES, "value_kinds": len(KINDS), "meshes": len(MESHES),
+                     "connectivity_dtypes": len(CONN_DTYPES)},
         "assumptions": ["dof convention node*dof_n + component (documented in Get_assembly_e)", "tolerance 1e-13 relative, real and imaginary parts"],
     }
 
@@ -666,6 +682,90 @@ def _run_isolated(case):
         if v:
             break
     return {"violations": v[:4], "fingerprint": fp(et, nel, dof_n, len(set(fps))), "nontrivial": len(set(fps)) > 1, "transitions": ntr, "states": len(set(fps))}
+
+
+def _run_conndtype(case):
+    """the harness simulation (slot table 1: the boundary groups contribute too) on a mesh whose connectivity arrays are stored in the
+    given integer dtype: Assembly() == scatter-add with rows / columns node * dof_n + component (dense loop on the small grids, scipy COO
+    duplicate summation on the large one).  The reference reads the connectivity as Python integers."""
+    import scipy.sparse as sp
+    from EasyFEA import Models
+    from EasyFEA.FEM._group_elem import GroupElemFactory
+    from EasyFEA.FEM._mesh import Mesh
+
+    meshname, dt, dof_n = case["mesh"], np.dtype(case["conn"]), case["dof_n"]
+    maker = CONN_MESHES[meshname][0]
+    if maker is not None:
+        zm = maker()
+        coords, groups = zm.coords, {**zm.boundary, **zm.groups}
+    else:
+        n = 148
+        xs = np.linspace(0.0, 1.0, n + 1)
+        X, Y = np.meshgrid(xs, xs, indexing="ij")
+        coords = np.zeros(((n + 1) ** 2, 3))
+        coords[:, 0], coords[:, 1] = X.ravel(), Y.ravel()
+        idx = np.arange((n + 1) ** 2).reshape(n + 1, n + 1)
+        groups = {"QUAD4": np.stack([idx[:-1, :-1].ravel(), idx[1:, :-1].ravel(), idx[1:, 1:].ravel(), idx[:-1, 1:].ravel()], axis=1)}
+    Nn = coords.shape[0]
+    if Nn - 1 > np.iinfo(dt).max:
+        raise AssertionError(f"harness: {Nn} nodes are not representable in {dt}")
+    wraps = (Nn - 1) * dof_n + dof_n - 1 > np.iinfo(dt).max
+    d = {}
+    for et, con in groups.items():
+        typed = np.asarray(con).astype(dt)
+        assert np.array_equal(typed.astype(np.int64), np.asarray(con, dtype=np.int64))
+        d[Z._ET(et)] = GroupElemFactory.Create(Z._ET(et), typed, coords.copy())
+    simu = _probe_class()(Mesh(d), Models.Thermal(k=1.0, c=1.0))
+    simu.probe_dof_n = dof_n
+    simu.probe_slot = 1
+    key = dict(mesh=meshname, conn=str(dt), dof_n=dof_n)
+    v, fps, ntr = [], [], 0
+    pt = simu.problemType
+    for rep in range(2):  # first assembly, then new values on the cached pattern
+        simu.probe_epoch = 2 * rep
+        simu.Need_Update()
+        if maker is not None:
+            vv, f = compare(simu, key, f"connectivity stored as {dt} ({Nn} nodes, {dof_n} dofs per node), assembly {rep}")
+            v += vv
+            fps += f
+        else:
+            Ndof = Nn * dof_n
+            got = simu.Assembly(pt)
+            loc = simu.Construct_local_matrix_system(pt)
+            for si, name in enumerate("KCMF"):
+                rows, cols, vals = [], [], []
+                for g, arrs in loc.items():
+                    if arrs[si] is None:
+                        continue
+                    c = np.asarray(g.connect).astype(np.int64)
+                    gd = (c[:, :, None] * dof_n + np.arange(dof_n)[None, None, :]).reshape(c.shape[0], -1)
+                    if si < 3:
+                        rows.append(np.repeat(gd, gd.shape[1], axis=1).ravel())
+                        cols.append(np.tile(gd, (1, gd.shape[1])).ravel())
+                    else:
+                        rows.append(gd.ravel())
+                        cols.append(np.zeros(gd.size, dtype=np.int64))
+                    vals.append(np.asarray(arrs[si]).ravel())
+                shape = (Ndof, Ndof) if si < 3 else (Ndof, 1)
+                ref = sp.coo_matrix((np.concatenate(vals), (np.concatenate(rows), np.concatenate(cols))), shape=shape).tocsr()
+                G = sp.csr_matrix(got[si])
+                fps.append(fp(name, float(abs(G).sum())))
+                if G.shape != ref.shape:
+                    v.append(viol("assembly_shape", f"connectivity stored as {dt}: {name} has shape {G.shape}, expected {ref.shape}", slot=name, **key))
+                    continue
+                dd = abs(G - ref)
+                err = dd.max() if dd.nnz else 0.0
+                sc = abs(ref).max()
+                if err > 1e-12 * sc:
+                    v.append(viol("assembly_mismatch", f"connectivity stored as {dt} ({Nn} nodes, {dof_n} dofs per node), assembly {rep}: {name} differs from "
+                                                       f"the COO scatter-add by {err:.3e} (scale {sc:.2e})", slot=name, **key))
+        ntr += 1
+        if v:
+            break
+    if v and wraps:
+        v[0]["detail"] += f" [largest dof number {(Nn - 1) * dof_n + dof_n - 1} exceeds the range of {dt}, every node number fits]"
+    return {"violations": v[:1], "fingerprint": fp(meshname, str(dt), dof_n, fps), "nontrivial": True, "transitions": ntr,
+            "outcome": ("wraps" if wraps else "fits") + (":violation" if v else ":ok")}
 
 
 def _run_scribble(case):
